@@ -276,7 +276,9 @@ def race_stress(pid, rcfg, tier, seed, work, known):
                 frames = re.findall(r"go-stackage\.([^\s(]*(?:\([^)]*\))?[^\s(]*)\(\)", sd)
                 info.append((kind, frames))
             reports.append(info)
-    kf = next((k for k in known if k.get("kind") == "race"), None)
+    # the race finding is recorded against C10; runs for other properties tolerate the
+    # same reports (they are about C10) and print no KNOWN-FINDING line for them
+    kf = next((k for k in load_known() if k.get("kind") == "race" and k.get("status") == "known"), None)
     new, old = [], 0
     for info in reports:
         if len(info) < 2:
@@ -296,8 +298,12 @@ def race_stress(pid, rcfg, tier, seed, work, known):
     stats = {"mode": rcfg["mode"], "rounds": rounds, "workers": rcfg.get("workers", 8), "race_reports": len(reports),
              "matching_known_finding": old, "other_reports": len(new), "invariant_problems": res.get("problems") or []}
     lines, viol = [], []
-    if kf and old:
+    if kf and old and kf.get("property") == pid:
         lines.append("KNOWN-FINDING: property=%s %s (%s; %d race report(s) this run)" % (pid, kf["id"], kf["what"], old))
+    if rcfg.get("invariants_only"):
+        # the property says nothing about the memory model: only the run's own invariants count
+        stats["other_reports_ignored"] = len(new)
+        new = []
     if new:
         rp = write_replay(pid, "race", {"property": pid, "family": "", "kind": "race-report", "reports": [[(k, f[:6]) for k, f in i] for i in new[:5]],
                                         "how": "harness-race stress -mode %s -rounds %d -seed %d under GORACE" % (rcfg["mode"], rounds, seed)})
